@@ -10,10 +10,12 @@ Open Scope string_scope.
 (* generic lifting lemmas over an arbitrary table (so that the kernel never unfolds the
    generated table outside vm_compute) *)
 Lemma roles_total_elim : forall fs t, roles_total fs t = true ->
-  (forall f, In f fs -> has_role f = true) /\ (forall a, In a t -> has_role (a_func a) = true).
+  (forall f, In f fs -> has_role f = true) /\
+  (forall a, In a t -> a_global a = false -> has_role (a_func a) = true).
 Proof.
   intros fs t H. unfold roles_total in H. apply andb_true_iff in H. destruct H as [H1 H2].
-  rewrite forallb_forall in H1, H2. split; assumption.
+  rewrite forallb_forall in H1, H2. split; [assumption|].
+  intros a Ha Hg. specialize (H2 a Ha). rewrite Hg in H2. exact H2.
 Qed.
 
 Lemma calls_elim : forall cs, forallb call_ok cs = true -> forall c, In c cs -> call_ok c = true.
@@ -42,7 +44,7 @@ Qed.
 (* ---- every function has a role -------------------------------------------------------- *)
 Lemma roles_total_ok :
   (forall f, In f functions -> has_role f = true) /\
-  (forall a, In a accesses -> has_role (a_func a) = true).
+  (forall a, In a accesses -> a_global a = false -> has_role (a_func a) = true).
 Proof. apply roles_total_elim. vm_compute. reflexivity. Qed.
 
 (* ---- callers of "caller must hold" methods hold the lock ---------------------------- *)
@@ -129,27 +131,28 @@ Definition has_event (f ch : string) (op : chop) : bool :=
 Definition no_event (f : string) : bool :=
   negb (existsb (fun e => String.eqb (e_func e) f) chan_events).
 
+(* accesses to package-level variables (a_global) are not part of the lock structure *)
 Definition pool_model_tie : bool :=
   (* get and put take no lock; get reads enabled, receives from the channel; put sends *)
-  forallb (fun a => negb (in_func "rdb.IteratorPool.get" a || in_func "rdb.IteratorPool.put" a) ||
+  forallb (fun a => a_global a || negb (in_func "rdb.IteratorPool.get" a || in_func "rdb.IteratorPool.put" a) ||
                     match a_locks a with [] => true | _ => false end) accesses &&
   existsb (fun a => in_func "rdb.IteratorPool.get" a && String.eqb (a_field a) "enabled" && negb (is_write a)) accesses &&
   has_event "rdb.IteratorPool.get" "rdb.IteratorPool.iterators" ChRecv &&
   has_event "rdb.IteratorPool.put" "rdb.IteratorPool.iterators" ChSend &&
   (* disable and enable run entirely under pool.l, write enabled, drain / fill the channel *)
-  forallb (fun a => negb (in_func "rdb.IteratorPool.disable" a || in_func "rdb.IteratorPool.enable" a) ||
+  forallb (fun a => a_global a || negb (in_func "rdb.IteratorPool.disable" a || in_func "rdb.IteratorPool.enable" a) ||
                     holds_excl "rdb.IteratorPool.l" a) accesses &&
   existsb (fun a => in_func "rdb.IteratorPool.disable" a && String.eqb (a_field a) "enabled" && is_write a) accesses &&
   existsb (fun a => in_func "rdb.IteratorPool.enable" a && String.eqb (a_field a) "enabled" && is_write a) accesses &&
   has_event "rdb.IteratorPool.disable" "rdb.IteratorPool.iterators" ChRecv &&
   has_event "rdb.IteratorPool.enable" "rdb.IteratorPool.iterators" ChSend &&
   (* CatchWithPrimary itself takes no lock and touches the pool only through disable / enable *)
-  forallb (fun a => negb (in_func "rdb.RDB.CatchWithPrimary" a) ||
+  forallb (fun a => a_global a || negb (in_func "rdb.RDB.CatchWithPrimary" a) ||
                     (match a_locks a with [] => true | _ => false end && negb (is_write a))) accesses &&
   no_event "rdb.RDB.CatchWithPrimary" &&
   (* the reload lock: Reload writes under reloadMu exclusively, AcquireReader reads under RLock *)
-  forallb (fun a => negb (in_func "dnsserver.FBDNSDB.Reload" a) || holds_excl "dnsserver.FBDNSDB.reloadMu" a) accesses &&
-  forallb (fun a => negb (in_func "dnsserver.FBDNSDB.AcquireReader" a) ||
+  forallb (fun a => a_global a || negb (in_func "dnsserver.FBDNSDB.Reload" a) || holds_excl "dnsserver.FBDNSDB.reloadMu" a) accesses &&
+  forallb (fun a => a_global a || negb (in_func "dnsserver.FBDNSDB.AcquireReader" a) ||
                     existsb (fun h => String.eqb (fst h) "dnsserver.FBDNSDB.reloadMu") (a_locks a)) accesses.
 
 Lemma pool_model_tie_ok : pool_model_tie = true.
